@@ -2,7 +2,7 @@
 """
 Translator for the event / general message constructors of
 statime/src/datastructures/messages/mod.rs (Message::sync, follow_up, delay_req,
-delay_resp, pdelay_req) -> Generated/MsgCtors.lean: the header each starts from,
+delay_resp, pdelay_req, pdelay_resp, pdelay_resp_follow_up) -> Generated/MsgCtors.lean: the header each starts from,
 every header field it overrides with the source of the value, and the body, as
 MsgGen.Ctor data.  Interpreter: Lemmas/MsgGen.lean; theorems: Props/C10.lean
 (generated_sync_is_model ...).  Unrecognised shapes -> none + DEGRADED.
@@ -34,6 +34,8 @@ BODY = {
     "MessageBody::FollowUp(FollowUpMessage{precise_origin_timestamp:timestamp.into(),})": ".followUpTs",
     "MessageBody::DelayResp(DelayRespMessage{receive_timestamp:timestamp.into(),requesting_port_identity:request_header.source_port_identity,})": ".delayRespTsReqSrc",
     "MessageBody::DelayResp(DelayRespMessage{receive_timestamp:timestamp.into(),requesting_port_identity:port_identity,})": ".delayRespTsOwnPid",
+    "MessageBody::PDelayResp(PDelayRespMessage{request_receive_timestamp:timestamp.into(),requesting_port_identity:request_header.source_port_identity,})": ".pdelayRespTsReqSrc",
+    "MessageBody::PDelayRespFollowUp(PDelayRespFollowUpMessage{response_origin_timestamp:timestamp.into(),requesting_port_identity:requestor_identity,})": ".pdelayRespFuTsRequestor",
 }
 
 
@@ -100,7 +102,8 @@ def run(read, write, degraded):
     L = ["/- GENERATED by translator/extract_msgs.py from /repo — do not edit -/",
          "import StatimeModel.Lemmas.MsgGen", "namespace Statime.Generated", "open Statime Statime.MsgGen", ""]
     for lean, fn in (("syncCtor", "sync"), ("followUpCtor", "follow_up"), ("delayReqCtor", "delay_req"),
-                     ("delayRespCtor", "delay_resp"), ("pdelayReqCtor", "pdelay_req")):
+                     ("delayRespCtor", "delay_resp"), ("pdelayReqCtor", "pdelay_req"),
+                     ("pdelayRespCtor", "pdelay_resp"), ("pdelayRespFuCtor", "pdelay_resp_follow_up")):
         try:
             c = ctor(src, fn)
         except Exception:
